@@ -75,6 +75,13 @@ def make_sampler(case):
     else:
         continuum = cases.build_continuum(case["continuum"])
         gt = case.get("ground_truth")
+        if case.get("vanished_label") and continuum.num_units:
+            # a label that was used once and whose units are all gone again (a relabelling): the continuum still lists it
+            # among its categories, its frequency in the reference is 0
+            from pyannote.core import Segment
+            a0 = sorted(case["continuum"]["ann"])[0]
+            continuum.add(a0, Segment(5000.0, 5001.0), case["vanished_label"])
+            continuum.remove(a0, [u for u in continuum[a0] if u.annotation == case["vanished_label"]][0])
         s.init_sampling(continuum, None if gt is None else list(gt))
         gt = sorted(gt or case["continuum"]["ann"].keys())
         cats = cases.spec_labels(case["continuum"])
@@ -315,10 +322,15 @@ def check_measure(ctx, h, cspec):
         for i, what in enumerate(("mean", "deviation")):
             if abs(h[k][i] - ref[k][i]) > 1e-9 * (1 + abs(ref[k][i])):
                 ctx.fail(f"measured-{k}-{what}-differs-from-the-reference", {"held": h[k], "re-measured": ref[k]}, monitor="M-MEASURE")
-    if h["categories"] != ref["categories"]:
-        ctx.fail("measured-categories-differ-from-the-reference", {"held": h["categories"], "reference": ref["categories"]}, monitor="M-MEASURE")
-    elif h["weights"] is None or any(abs(a - b) > 1e-9 for a, b in zip(h["weights"], ref["weights"])):
-        ctx.fail("measured-category-frequencies-differ-from-the-reference", {"held": h["weights"], "reference": ref["weights"]},
+    # compared as the law they define: category -> frequency, categories of frequency 0 (labels the continuum still lists
+    # although no unit carries them any more) left out
+    held = {c: w for c, w in zip(h["categories"], h["weights"] or []) if w > 0}
+    want = {c: w for c, w in zip(ref["categories"], ref["weights"]) if w > 0}
+    if h["weights"] is None or sorted(held) != sorted(want):
+        ctx.fail("measured-categories-differ-from-the-reference", {"held": [h["categories"], h["weights"]], "reference": [ref["categories"], ref["weights"]]},
+                 monitor="M-MEASURE")
+    elif any(abs(held[c] - want[c]) > 1e-9 for c in want):
+        ctx.fail("measured-category-frequencies-differ-from-the-reference", {"held": held, "reference": want},
                  monitor="M-MEASURE")
 
 
@@ -463,6 +475,8 @@ def run(ctx):
             names = sorted(cspec["ann"].keys())
             gt = sorted(rng.sample(names[1:], rng.randint(1, n - 1)))
         case = {"init": "reference", "continuum": cspec, "ground_truth": gt, "benign": False, "draws": 60}
+        if rng.random() < 0.35:
+            case["vanished_label"] = rng.choice(["0 gone", "A-gone", "M", "zz gone"])     # sorts before / among / after the labels in use
         if n >= 3 and rng.random() < 0.6:
             case["reinit_ground_truth"] = rng.choice([[], sorted(rng.sample(names, rng.randint(2, n)))])
         plan_.append(case)
